@@ -189,6 +189,32 @@ func VerifH11() {
 		session = vCat([]byte{0, 0, 0, 16, 0x04, 0xd2, 0x16, 0x2e}, nondetBytes(8), nondetBytes(vChoose(3)))
 	}
 
+	// a message larger than the configured limit (64) sent after the startup:
+	// the limit applies inside TLS exactly as it does in plaintext
+	oversizedInside := !repeatInside && !cancelInside && nondetBool()
+	if oversizedInside {
+		big := make([]byte, 65+vChoose(2))
+		for i := range big {
+			big[i] = 'a'
+		}
+		big[len(big)-1] = 0
+		session = vCat(vStartup(vKV([]byte("user"), []byte("u"))), vMsgBytes('Q', big), vMsgBytes('X', nil))
+	}
+	checkOversized := func(out []byte) {
+		msgs, ok := vFrames(out)
+		vAssert("oversized-session-wellformed", ok && vWireOK(out))
+		errs := 0
+		for _, m := range msgs {
+			if m.typ == 'E' {
+				errs++
+				code, _ := vErrField(m.body, 'C')
+				vAssert("oversized-class-program-limit-exceeded", string(code) == "54000")
+			}
+		}
+		vAssert("oversized-one-error", errs == 1)
+		vAssert("oversized-never-parsed", len(w.events) == 0)
+	}
+
 	if cfgKind == 2 {
 		// with certificates: 'S', then everything inside TLS
 		run := vServeTLS(srv, vCat(vSSLRequest, stuffed), session)
@@ -206,6 +232,12 @@ func VerifH11() {
 			vAssert("cancel-after-upgrade-no-callback", len(seenUsers) == 0 && len(w.events) == 0)
 			vAssert("closed", run.closed)
 			vReach("cancel-after-upgrade")
+			return
+		}
+		if oversizedInside {
+			checkOversized(run.innerOut)
+			vAssert("closed", run.closed)
+			vReach("limit-enforced-inside-tls")
 			return
 		}
 		vAssert("session-runs-inside-TLS", vWireOK(run.innerOut) && vCount(vTypes(run.innerOut), 'Z') == 1)
@@ -240,6 +272,13 @@ func VerifH11() {
 	vAssert("ssl-refused-with-single-N", len(conn.out) >= 1 && conn.out[0] == 'N')
 	vAssert("plaintext-continues-wellformed", vWireOK(conn.out[1:]))
 	vAssert("closed", conn.closed >= 1)
+	if oversizedInside {
+		if stuffKind == 0 {
+			checkOversized(conn.out[1:])
+			vReach("limit-enforced-after-refusal")
+		}
+		return
+	}
 	if stuffKind == 0 {
 		vAssert("fresh-startup-served", len(seenUsers) == 1 && string(seenUsers[0]) == "u" && vCount(vTypes(conn.out[1:]), 'Z') == 1)
 		vReach("refused-then-plaintext")
